@@ -18,16 +18,16 @@ theorem Sat.ne_none {α : Type} {x : Option α} {Q : α → Prop} (h : Sat x Q) 
   rw [hb]; simp
 
 theorem scanWhile_ex (p : Int → Bool) (hp : p eof = false) (l : Lexer) (h0 : 0 ≤ l.pos) (h1 : l.pos ≤ l.len) :
-    ∃ r l', scanWhile p hp l = some (r, l') ∧ (l'.len = l.len ∧ l'.mp = l.mp ∧ l'.tagStart = l.tagStart ∧ (l'.bad = l.bad ∧ l'.cnt = l.cnt) ∧ l'.tagBad = l.tagBad ∧ l'.input = l.input) ∧ l'.start = l.start ∧ p r = false ∧
+    ∃ r l', scanWhile p hp l = some (r, l') ∧ (l'.len = l.len ∧ l'.mp = l.mp ∧ l'.tagStart = l.tagStart ∧ (l'.bad = l.bad ∧ l'.cnt = l.cnt ∧ l'.tot = l.tot) ∧ l'.tagBad = l.tagBad ∧ l'.input = l.input) ∧ l'.start = l.start ∧ p r = false ∧
       ScanFacts l r l' := by
   obtain ⟨⟨r, l'⟩, h, f⟩ := scanWhile_sat p hp l
-    (Q := fun x => (x.2.len = l.len ∧ x.2.mp = l.mp ∧ x.2.tagStart = l.tagStart ∧ (x.2.bad = l.bad ∧ x.2.cnt = l.cnt) ∧ x.2.tagBad = l.tagBad ∧ x.2.input = l.input) ∧ x.2.start = l.start ∧ p x.1 = false ∧ ScanFacts l x.1 x.2)
+    (Q := fun x => (x.2.len = l.len ∧ x.2.mp = l.mp ∧ x.2.tagStart = l.tagStart ∧ (x.2.bad = l.bad ∧ x.2.cnt = l.cnt ∧ x.2.tot = l.tot) ∧ x.2.tagBad = l.tagBad ∧ x.2.input = l.input) ∧ x.2.start = l.start ∧ p x.1 = false ∧ ScanFacts l x.1 x.2)
     h0 h1 (fun _ _ a b c d => ⟨a, b, c, d⟩)
   exact ⟨r, l', h, f⟩
 
 /-! ### comments -/
 
-theorem lexLineComment_sat {n : Int} {l0 l : Lexer} (hn : l.len = n ∧ (l.mp : Int) ≤ n ∧ 0 ≤ l.tagStart ∧ l.tagStart ≤ n ∧ (l.bad = 0 ∧ l.cnt ≤ 2 * l.start) ∧ l.tagBad = 0) (h0 : 0 ≤ l.start)
+theorem lexLineComment_sat {n : Int} {l0 l : Lexer} (hn : l.len = n ∧ (l.mp : Int) ≤ n ∧ 0 ≤ l.tagStart ∧ l.tagStart ≤ n ∧ (l.bad = 0 ∧ l.cnt ≤ 2 * l.start ∧ l.tot ≤ l.start) ∧ l.tagBad = 0) (h0 : 0 ≤ l.start)
     (h1 : l.start < l.pos) (h2 : l.pos ≤ n) (hadv : l0.pos < l.pos) (hi0 : l.input = l0.input) :
     Sat (lexLineComment l) (Post n .text l0) := by
   unfold lexLineComment
@@ -41,7 +41,7 @@ theorem lexLineComment_sat {n : Int} {l0 l : Lexer} (hn : l.len = n ∧ (l.mp : 
   fin
 
 theorem lexBlockComment_sat {n : Int} {l0 : Lexer} : ∀ (k : Nat) (l : Lexer) (star : Bool), l.rem = k →
-    (l.len = n ∧ (l.mp : Int) ≤ n ∧ 0 ≤ l.tagStart ∧ l.tagStart ≤ n ∧ (l.bad = 0 ∧ l.cnt ≤ 2 * l.start) ∧ l.tagBad = 0) → 0 ≤ l.start → l.start ≤ l.pos → l.pos ≤ n → l0.pos < l.pos →
+    (l.len = n ∧ (l.mp : Int) ≤ n ∧ 0 ≤ l.tagStart ∧ l.tagStart ≤ n ∧ (l.bad = 0 ∧ l.cnt ≤ 2 * l.start ∧ l.tot ≤ l.start) ∧ l.tagBad = 0) → 0 ≤ l.start → l.start ≤ l.pos → l.pos ≤ n → l0.pos < l.pos →
     (byteAt l.input l.start.toNat = 47 ∧ byteAt l.input (l.start.toNat + 1) = 42) → l.input = l0.input →
     Sat (lexBlockComment l star) (Post n .text l0) := by
   intro k
@@ -74,9 +74,9 @@ theorem lexBlockComment_sat {n : Int} {l0 : Lexer} : ∀ (k : Nat) (l : Lexer) (
 
 /-- result of lexSoyDocParam and its second half: a lexer with the invariant, not behind `p` -/
 def SdpPost (n p : Int) (l' : Lexer) : Prop :=
-  (l'.len = n ∧ (l'.mp : Int) ≤ n ∧ 0 ≤ l'.tagStart ∧ l'.tagStart ≤ n ∧ (l'.bad = 0 ∧ l'.cnt ≤ 2 * l'.start) ∧ l'.tagBad = 0) ∧ 0 ≤ l'.start ∧ l'.start ≤ l'.pos ∧ l'.pos ≤ n ∧ p ≤ l'.pos
+  (l'.len = n ∧ (l'.mp : Int) ≤ n ∧ 0 ≤ l'.tagStart ∧ l'.tagStart ≤ n ∧ (l'.bad = 0 ∧ l'.cnt ≤ 2 * l'.start ∧ l'.tot ≤ l'.start) ∧ l'.tagBad = 0) ∧ 0 ≤ l'.start ∧ l'.start ≤ l'.pos ∧ l'.pos ≤ n ∧ p ≤ l'.pos
 
-theorem lexSoyDocParamName_sat {n : Int} {l : Lexer} (hn : l.len = n ∧ (l.mp : Int) ≤ n ∧ 0 ≤ l.tagStart ∧ l.tagStart ≤ n ∧ (l.bad = 0 ∧ l.cnt ≤ 2 * l.start) ∧ l.tagBad = 0) (h0 : 0 ≤ l.start)
+theorem lexSoyDocParamName_sat {n : Int} {l : Lexer} (hn : l.len = n ∧ (l.mp : Int) ≤ n ∧ 0 ≤ l.tagStart ∧ l.tagStart ≤ n ∧ (l.bad = 0 ∧ l.cnt ≤ 2 * l.start ∧ l.tot ≤ l.start) ∧ l.tagBad = 0) (h0 : 0 ≤ l.start)
     (h1 : l.start ≤ l.pos) (h2 : l.pos ≤ n) (hsl : l.cnt + 1 ≤ 2 * l.start) :
     Sat (lexSoyDocParamName l) (fun l' => SdpPost n l.pos l' ∧ l'.input = l.input) := by
   unfold lexSoyDocParamName
@@ -116,7 +116,7 @@ theorem SdpPost.mono {n p q : Int} {l : Lexer} (h : SdpPost n p l) (hq : q ≤ p
   unfold SdpPost at h ⊢
   omega
 
-theorem lexSoyDocParam_sat {n : Int} {l : Lexer} (hn : l.len = n ∧ (l.mp : Int) ≤ n ∧ 0 ≤ l.tagStart ∧ l.tagStart ≤ n ∧ (l.bad = 0 ∧ l.cnt ≤ 2 * l.start) ∧ l.tagBad = 0) (h0 : 0 ≤ l.start)
+theorem lexSoyDocParam_sat {n : Int} {l : Lexer} (hn : l.len = n ∧ (l.mp : Int) ≤ n ∧ 0 ≤ l.tagStart ∧ l.tagStart ≤ n ∧ (l.bad = 0 ∧ l.cnt ≤ 2 * l.start ∧ l.tot ≤ l.start) ∧ l.tagBad = 0) (h0 : 0 ≤ l.start)
     (h1 : l.start ≤ l.pos) (h2 : l.pos + 6 ≤ n) :
     Sat (lexSoyDocParam l) (fun l' => SdpPost n l.pos l' ∧ l'.input = l.input) := by
   unfold lexSoyDocParam
@@ -157,7 +157,7 @@ theorem isEndOfLine_nonneg {r : Int} (h : isEndOfLine r = true) : 0 ≤ r := by
 /-- the loop of lexSoyDoc, entered (from lexText at `l0`) after input has been consumed -/
 theorem lexSoyDocLoop_sat {n : Int} {l0 : Lexer} : ∀ (k : Nat) (l : Lexer) (ds : Int) (star sol : Bool),
     2 * l.rem + (if sol = true then 1 else 0) = k →
-    (l.len = n ∧ (l.mp : Int) ≤ n ∧ 0 ≤ l.tagStart ∧ l.tagStart ≤ n ∧ (l.bad = 0 ∧ l.cnt ≤ 2 * l.start) ∧ l.tagBad = 0) → 0 ≤ l.start → l.start ≤ l.pos → l.pos ≤ n → l0.pos < l.pos →
+    (l.len = n ∧ (l.mp : Int) ≤ n ∧ 0 ≤ l.tagStart ∧ l.tagStart ≤ n ∧ (l.bad = 0 ∧ l.cnt ≤ 2 * l.start ∧ l.tot ≤ l.start) ∧ l.tagBad = 0) → 0 ≤ l.start → l.start ≤ l.pos → l.pos ≤ n → l0.pos < l.pos →
     (ds ≤ n ∧ byteAt l.input ds.toNat = 47 ∧ byteAt l.input (ds.toNat + 1) = 42 ∧ byteAt l.input (ds.toNat + 2) = 42) → l.input = l0.input →
     Sat (lexSoyDocLoop l ds star sol) (Post n .text l0) := by
   intro k
@@ -230,7 +230,7 @@ theorem lexSoyDocLoop_sat {n : Int} {l0 : Lexer} : ∀ (k : Nat) (l : Lexer) (ds
         have hS' : sol = false := by simpa using hS
         split
         · have hm := maybeEmitText_sat (l := l1) (k := 1)
-            (Q := fun l' => (l'.len = l1.len ∧ l1.mp ≤ l'.mp ∧ ((l'.mp : Int) = l1.mp ∨ (l'.mp : Int) = l1.pos - 1) ∧ l'.tagStart = l1.tagStart ∧ (l'.bad = l1.bad ∧ l'.cnt + l1.start ≤ l1.cnt + l'.start) ∧ l'.tagBad = l1.tagBad ∧ l'.input = l1.input) ∧ l'.pos = l1.pos ∧ l'.width = l1.width ∧
+            (Q := fun l' => (l'.len = l1.len ∧ l1.mp ≤ l'.mp ∧ ((l'.mp : Int) = l1.mp ∨ (l'.mp : Int) = l1.pos - 1) ∧ l'.tagStart = l1.tagStart ∧ (l'.bad = l1.bad ∧ l'.cnt + l1.start ≤ l1.cnt + l'.start ∧ l'.tot + l1.start ≤ l1.tot + l'.start) ∧ l'.tagBad = l1.tagBad ∧ l'.input = l1.input) ∧ l'.pos = l1.pos ∧ l'.width = l1.width ∧
               ((l'.start = l1.start ∧ l1.pos - 1 ≤ l1.start) ∨ (l1.start < l1.pos - 1 ∧ l'.start = l1.pos - 1)))
             (by lx) (by omega) (by lx) (fun _ a b c d => ⟨a, b, c, d⟩)
           split
@@ -243,7 +243,7 @@ theorem lexSoyDocLoop_sat {n : Int} {l0 : Lexer} : ∀ (k : Nat) (l : Lexer) (ds
         · exact ih _ (by rw [← hk]; simp only [hS', Bool.false_eq_true, if_false]; omega) l1 _ _ _ rfl
             (by lx) (by lx) (by lx) (by lx) (by lx) hds1 (by inq)
 
-theorem lexSoyDoc_sat {n : Int} {l0 l : Lexer} (hn : l.len = n ∧ (l.mp : Int) ≤ n ∧ 0 ≤ l.tagStart ∧ l.tagStart ≤ n ∧ (l.bad = 0 ∧ l.cnt ≤ 2 * l.start) ∧ l.tagBad = 0) (h0 : 0 ≤ l.start)
+theorem lexSoyDoc_sat {n : Int} {l0 l : Lexer} (hn : l.len = n ∧ (l.mp : Int) ≤ n ∧ 0 ≤ l.tagStart ∧ l.tagStart ≤ n ∧ (l.bad = 0 ∧ l.cnt ≤ 2 * l.start ∧ l.tot ≤ l.start) ∧ l.tagBad = 0) (h0 : 0 ≤ l.start)
     (h1 : l.start < l.pos) (h2 : l.pos ≤ n) (hadv : l0.pos < l.pos)
     (hdoc : byteAt l.input l.start.toNat = 47 ∧ byteAt l.input (l.start.toNat + 1) = 42 ∧ byteAt l.input (l.start.toNat + 2) = 42)
     (hi0 : l.input = l0.input) :
@@ -260,7 +260,7 @@ set_option maxHeartbeats 1600000 in
 /-- the loop of lexText started at `l0`: `start` stays put, `pos` moves on, and once a
     character has been read (`lastChar ≠ noChar`) the pending text is not empty -/
 theorem lexTextLoop_sat {n : Int} {l0 : Lexer} : ∀ (k : Nat) (l : Lexer) (lastChar : Int), l.rem = k →
-    (l.len = n ∧ (l.mp : Int) ≤ n ∧ 0 ≤ l.tagStart ∧ l.tagStart ≤ n ∧ (l.bad = 0 ∧ l.cnt ≤ 2 * l.start) ∧ l.tagBad = 0) → 0 ≤ l.start → l.start ≤ l.pos → l.pos ≤ n → l0.pos ≤ l.pos →
+    (l.len = n ∧ (l.mp : Int) ≤ n ∧ 0 ≤ l.tagStart ∧ l.tagStart ≤ n ∧ (l.bad = 0 ∧ l.cnt ≤ 2 * l.start ∧ l.tot ≤ l.start) ∧ l.tagBad = 0) → 0 ≤ l.start → l.start ≤ l.pos → l.pos ≤ n → l0.pos ≤ l.pos →
     (lastChar = noChar ∨ l.start < l.pos) → l.input = l0.input →
     Sat (lexTextLoop l lastChar) (Post n .text l0) := by
   intro k
@@ -304,7 +304,7 @@ theorem lexTextLoop_sat {n : Int} {l0 : Lexer} : ∀ (k : Nat) (l : Lexer) (last
                   · exact h
                 have ht3 : ({ l3 with start := l3.start + 1 } : Lexer).tagBad = l3.tagBad := rfl
                 exact lexLineComment_sat (l := { l3 with start := l3.start + 1 })
-                  (by simp only [Lexer.len, Lexer.mp, Lexer.bad, Lexer.cnt] at *; omega) (by dsimp only; lx) (by dsimp only; lx)
+                  (by simp only [Lexer.len, Lexer.mp, Lexer.bad, Lexer.cnt, Lexer.tot] at *; omega) (by dsimp only; lx) (by dsimp only; lx)
                   (by dsimp only; lx) (by dsimp only; lx) (by dsimp only; inq)
             · exact ih _ (by omega) l2.backup _ rfl (by lx) (by lx) (by lx) (by lx) (by lx) (Or.inr (by lx)) (by inq)
           split
